@@ -479,6 +479,10 @@ func (fr *Frame) copyBuiltin(b *ssa.BasicBlock, c *ssa.CallCommon, args []Val, s
 		// n elements of d are the first n elements s had before
 		after := vc.def("(Array (_ BitVec 64) "+es+")", "cdst1", vc.readCell(st, key, app("g_sarr", d)))
 		vc.assume(app(vc.sameSeqPred(et), after, app("g_soff", d), srcArr, app("g_soff", s), n))
+		// the same fact seen from the source: a read of an old source element names
+		// the destination cell that now holds it (witnesses move with a shift)
+		vc.assume(fmt.Sprintf("(forall ((g_k (_ BitVec 64))) (! (=> (and (bvule (g_soff %s) g_k) (bvult g_k (bvadd (g_soff %s) %s))) (= (select %s (bvadd (bvsub g_k (g_soff %s)) (g_soff %s))) (select %s g_k))) :pattern ((select %s g_k))))",
+			s, s, n, after, s, d, srcArr, srcArr))
 	}
 	return &Val{T: resT, S: n}
 }
